@@ -22,6 +22,10 @@ claim("C13","exploration","runtime monitor: allocation (MemStats/MemProfile site
  "Short messages whose every length/count position is overwritten with 2^16..2^31-1 are pushed through every decoding API; bytes allocated (runtime.MemStats.TotalAlloc delta) and reader calls+seeks are compared with a linear bound, and an excess is attributed to its allocation site by runtime.MemProfile or by the out-of-memory trace under ulimit -v. One open finding (generated container deserializers) is matched by allocation site only.",
  "bounds C0=2 MiB (11 MiB frame reader), k=128 B/byte, calls<=64N+256; generated types limited to plugin/api until the generated-program lab covers C13", "DESIGN.md §5 C13")
 
+claim("C18","exploration","Go race detector + baseline-equality and exactly-once conservation oracles over many-goroutine stress (GOMAXPROCS grid, random yields, forced GCs, barrier-synchronised fan-out)",
+ "The real codec, request APIs, generated plugin/api (de)serialisers, the frame client and the plugin fan-out run under the race detector in rounds of 2..64 goroutines with GOMAXPROCS in {1,2,16}; every operation's result is compared with its run-alone baseline, every echo reply must be the caller's own unique payload, every frame must be seen exactly once, merged plugin output must be the union and every planted conflict must be reported. Evidence records overlapping operation pairs and pool recycling actually observed.",
+ "interleavings are those the Go scheduler produced; generated types limited to plugin/api until the generated-program lab covers C18", "DESIGN.md §5 C18")
+
 NOT_IMPL = "check not implemented yet in this round (statement about the machinery, not the technique)"
 
 def main():
